@@ -19,6 +19,8 @@ pub enum Case {
     Raw { op: String, a: String, b: String },
     /// P = [k1]G in representation Z = l1 (l1 = 0: infinity (k1^2, k1^3, 0)), same for Q
     Add { k1: String, l1: String, k2: String, l2: String },
+    /// explicit affine points (x1, y1), (x2, y2) in representations Z = l1, l2 (used for different points sharing y)
+    AddXY { x1: String, y1: String, l1: String, x2: String, y2: String, l2: String, tag: String },
     /// unary point operations and predicates on [k]G with Z = l
     Unary { k: String, l: String },
     /// off-curve triple: [k]G with Z = l, one coordinate bumped (which = 0 x, 1 y, 2 z)
@@ -217,6 +219,24 @@ pub fn eval(ctx: &Ctx, case: &Case) {
             match guard(|| p1.point_add(&p2)) {
                 Guard::Done(r) if ref_point(&r) == want => ctx.outcome(&format!("ok/add/{}", cls)),
                 Guard::Done(r) => ctx.violation("Point::point_add", &format!("wrong-sum/{}", cls), format!("P=[{}]G Z={} Q=[{}]G Z={} got={} want={}", hexbig(&k1), hexbig(&l1), hexbig(&k2), hexbig(&l2), pt_str(&ref_point(&r)), pt_str(&want)), cj()),
+                Guard::Panic(p) => ctx.violation("Point::point_add", &format!("panic/{}/{}", panic_site(&p), cls), p, cj()),
+            }
+        }
+        Case::AddXY { x1, y1, l1, x2, y2, l2, tag } => {
+            let (r1, r2): (Pt, Pt) = (Some((hb(x1), hb(y1))), Some((hb(x2), hb(y2))));
+            let (l1, l2) = (hb(l1), hb(l2));
+            if !sm2::params().curve.on_curve(&r1) || !sm2::params().curve.on_curve(&r2) {
+                ctx.machinery_error("AddXY operand is not on the curve");
+                return;
+            }
+            let (p1, p2) = (lib_point(&r1, &l1), lib_point(&r2, &l2));
+            let want = sm2::add(&r1, &r2);
+            ctx.call();
+            ctx.trace();
+            let cls = format!("{}/{}+{}", tag, rep_class(&l1), rep_class(&l2));
+            match guard(|| p1.point_add(&p2)) {
+                Guard::Done(r) if ref_point(&r) == want => ctx.outcome(&format!("ok/add/{}", cls)),
+                Guard::Done(r) => ctx.violation("Point::point_add", &format!("wrong-sum/{}", cls), format!("P=({}, {}) Z={} Q=({}, {}) Z={} got={} want={}", x1, y1, hexbig(&l1), x2, y2, hexbig(&l2), pt_str(&ref_point(&r)), pt_str(&want)), cj()),
                 Guard::Panic(p) => ctx.violation("Point::point_add", &format!("panic/{}/{}", panic_site(&p), cls), p, cj()),
             }
         }
@@ -429,7 +449,7 @@ pub fn run(ctx: &Arc<Ctx>) {
     refmodels::selftest::run(&["sm2"]).unwrap_or_else(|e| ctx.machinery_error(format!("reference self-test failed: {}", e)));
     let pr = sm2::params();
     let (p, n) = (pr.p.clone(), pr.n.clone());
-    ctx.set_rule("fields: operands = all 4-limb values with limbs in {0,1,2^32,2^63,2^64-1} below the modulus, values within 4 of it, 2^256-m, m/2, R, R^2, seeded; unary ops on all, binary ops on all x extreme (thorough: all x all); crafted Montgomery products landing on 0, 1, m-1. Raw u256/u512 helpers on all limb patterns. Group: [j]G for j in {1,2,3,5,n-1,n-2,seeded} x Z in {1,2,p-1,seeded} plus 3 encodings of infinity, all ordered pairs through point_add, all through dbl/neg/affine/validity/SEC1; off-curve triples; scalars {0,1,2,15,16,17,n-1, n+w for w<=300, 2^256-1, every v*16^i, every b*256^i, adjacent-byte sums, seeded} through g_mul / scalar_mul of 3 bases; all 32x255 table entries; all sequences of <= 2 (thorough 3) scalar multiplications over related bases {B, -B, B re-represented, other point} x 2 scalars on one thread. Oracle: affine big-integer arithmetic.");
+    ctx.set_rule("fields: operands = all 4-limb values with limbs in {0,1,2^32,2^63,2^64-1} below the modulus, values within 4 of it, 2^256-m, m/2, R, R^2, seeded; unary ops on all, binary ops on all x extreme (thorough: all x all); crafted Montgomery products landing on 0, 1, m-1. Raw u256/u512 helpers on all limb patterns. Group: [j]G for j in {1,2,3,5,n-1,n-2,seeded} x Z in {1,2,p-1,seeded} plus 3 encodings of infinity, all ordered pairs through point_add, triples of different points sharing y (and their negatives) in 3 representations through point_add, all through dbl/neg/affine/validity/SEC1; off-curve triples; scalars {0,1,2,15,16,17,n-1, n+w for w<=300, 2^256-1, every v*16^i, every b*256^i, adjacent-byte sums, seeded} through g_mul / scalar_mul of 3 bases; all 32x255 table entries; all sequences of <= 2 (thorough 3) scalar multiplications over related bases {B, -B, B re-represented, other point} x 2 scalars on one thread. Oracle: affine big-integer arithmetic.");
     let mut cases: Vec<Case> = Vec::new();
     let h = |x: &BigUint| hexbig(x);
     // ---- fields
@@ -508,6 +528,43 @@ pub fn run(ctx: &Arc<Ctx>) {
             for which in 0..3u8 {
                 cases.push(Case::OffCurve { k: h(k1), l: h(l1), which });
             }
+        }
+    }
+    // different points sharing y: for P = (x1, y) the other roots of x^3 + a x + (b - y^2) are those of
+    // x^2 + x1 x + (x1^2 + a); with Q, T the two further points, P + Q + T = O. Every ordered pair of {+-P, +-Q, +-T} in
+    // three representations goes through point_add ("equal y" is not "equal point", "equal x" is not "equal point").
+    {
+        let a = sm2::params().a.clone();
+        let mut triples = 0;
+        let mut j = BigUint::from(2u32);
+        while triples < 2 && j < BigUint::from(400u32) {
+            let (x1, y1) = sm2::g_mul(&j).unwrap();
+            // discriminant -3 x1^2 - 4 a
+            let dsc = (&p * 8u32 - (BigUint::from(3u32) * &x1 * &x1) % &p - (BigUint::from(4u32) * &a) % &p) % &p;
+            let s = dsc.modpow(&((&p + 1u32) / 4u32), &p);
+            if (&s * &s) % &p == dsc && !dsc.is_zero() {
+                let inv2 = (&p + 1u32) / 2u32;
+                let x2 = ((&p - &x1 + &s) % &p * &inv2) % &p;
+                let x3 = ((&p * 2u32 - &x1 - &s) % &p * &inv2) % &p;
+                let pts: Vec<(BigUint, BigUint)> = vec![(x1.clone(), y1.clone()), (x2.clone(), y1.clone()), (x3.clone(), y1.clone()), (x1.clone(), &p - &y1), (x2.clone(), &p - &y1), (x3.clone(), &p - &y1)];
+                let zs = [BigUint::one(), BigUint::from(2u32), g.nonzero_below(&p)];
+                for (a1, (xa, ya)) in pts.iter().enumerate() {
+                    for (a2, (xb, yb)) in pts.iter().enumerate() {
+                        let tag = if a1 == a2 { "same-point" } else if a1 % 3 == a2 % 3 { "opposite-points" } else if (a1 < 3) == (a2 < 3) { "same-y-different-x" } else { "opposite-y-different-x" };
+                        for l1 in &zs {
+                            for l2 in &zs {
+                                cases.push(Case::AddXY { x1: h(xa), y1: h(ya), l1: h(l1), x2: h(xb), y2: h(yb), l2: h(l2), tag: tag.into() });
+                            }
+                        }
+                    }
+                }
+                triples += 1;
+            }
+            j += 1u32;
+        }
+        ctx.cov("same_y_point_triples", json!(triples));
+        if triples == 0 {
+            ctx.machinery_error("no triple of points sharing y found");
         }
     }
     // scalars
